@@ -62,6 +62,7 @@ package directory
 //@   ensures[C15] err != nil ==> !at_lock(has(s.staging, id)) && s.signal.evadded == old(s.signal.evadded)
 //@   ensures[C15] forall k uint32 {at_unlock(has(s.services, k))} :: k != id || err != nil ==> (at_unlock(has(s.services, k)) <==> at_lock(has(s.services, k))) && (at_unlock(has(s.staging, k)) <==> at_lock(has(s.staging, k)))
 //@   ensures[C15] at_unlock(s.lastID) == at_lock(s.lastID)
+//@   call SignalServiceAdded#1: assert[C15] s.mutex.lockw && arg0 == id
 
 //@ func (s *serviceDirectory) UnregisterService(id uint32) (err error)
 //@   tags C15
@@ -74,6 +75,7 @@ package directory
 //@   ensures[C15] err != nil ==> !at_lock(has(s.services, id)) && !at_lock(has(s.staging, id))
 //@   ensures[C15] forall k uint32 {at_unlock(has(s.services, k))} :: k != id ==> (at_unlock(has(s.services, k)) <==> at_lock(has(s.services, k))) && (at_unlock(has(s.staging, k)) <==> at_lock(has(s.staging, k)))
 //@   ensures[C15] at_unlock(s.lastID) == at_lock(s.lastID)
+//@   call SignalServiceRemoved#1: assert[C15] s.mutex.lockw && arg0 == id
 
 //@ func (s *serviceDirectory) UpdateServiceInfo(i ServiceInfo) (err error)
 //@   tags C15
